@@ -23,7 +23,7 @@ LEVEL = "exploration"
 DECIDING = ["C08.digest_equals_fresh_process", "C08.rng_trace", "C08.prefix"]
 RULE = ("histories = random interleavings (length 6-20) of {construct (alg,N) [optionally with time_generation=True, optionally after building a larger polytope grid of the same "
         "algorithm], call getter g on live object k (repeats allowed; exact and approximate areas in any order), np.random.seed(s), draw r numbers from the global generator, "
-        "get_convex_hulls (in-place helper-point filter), PositionGrid getters, FullGrid getters incl. get_full_prefactors}; every getter result is compared bitwise with the "
+        "in-place modification by the caller of the object a getter last returned, get_convex_hulls (in-place helper-point filter), PositionGrid getters, FullGrid getters incl. get_full_prefactors}; every getter result is compared bitwise with the "
         "digest from a fresh interpreter; prefix pairs (N, N+M) for ico, cube3D, cube4D. 3-D N<=60 (quick) / <=200 (thorough), 4-D N<=16 / "
         "<=40. Non-trivial = history with >=2 constructions and >=1 reseed/draw between constructions or getters; distinct by history digest")
 ASSUMPTIONS = ["bit comparison via md5 of the raw arrays (sparse: format, index arrays, data)", "BLAS/OMP threads fixed to 1 in both processes",
@@ -213,6 +213,9 @@ def make_history(rng, tier):
                 kind = "full"          # a full SE(3) grid: every matrix getter (and the in-place consumer get_full_prefactors) must be pure
                 N = min(max(N, 4), 14)
                 t = rng.choice(["4", "randomQ_5", "1", "cube4D_8"]) + "|" + rng.choice(["[0.1, 0.2]", "[0.3, 0.1, 0.25]"])
+                if rng.random() < 0.3:
+                    # a single position cell: the full matrices ARE the rotation-grid matrices (no block assembly in between)
+                    N, t = 1, rng.choice(["cube4D_8", "randomQ_6", "5"]) + "|[0.1]"
             else:
                 t = None
             if alg in ("ico", "cube3D", "cube4D") and rng.random() < 0.3:
@@ -226,6 +229,8 @@ def make_history(rng, tier):
             small = (kind in ("3d", "4d") and N < 4)
             gs = (("grid",) if kind == "3d" else ("grid", "grid_full")) if small else getters(kind)
             ops.append(["get", k, rng.choice(gs)])
+        elif r < 0.74:
+            ops.append(["scramble", rng.randrange(len(objs))])   # hostile caller: modifies the last object this grid handed out, in place
         elif r < 0.8:
             ops.append(["seed", rng.randrange(2 ** 31)])
         elif r < 0.9:
@@ -241,6 +246,7 @@ def make_history(rng, tier):
 
 def run_history(REC, ops, golden):
     live = []
+    last = {}
     nconstruct, noise_between = 0, False
     for op in ops:
         try:
@@ -253,13 +259,25 @@ def run_history(REC, ops, golden):
             elif op[0] == "get":
                 _, k, g = op
                 kind, alg, N, t, obj = live[k]
-                d = dg(call(kind, obj, g))
+                res = call(kind, obj, g)
+                d = dg(res)
+                if g not in ("grid", "grid_full", "pos_array", "full_array"):   # the grid arrays themselves are the objects' own state
+                    last[k] = res
                 want = golden.get(json.dumps([kind, alg, N, t]), {})
                 if "__error__" in want or g not in want:
                     REC.skip("C08.digest_equals_fresh_process", "no golden for this getter")
                 else:
                     REC.check("C08.digest_equals_fresh_process", d == want[g],
                               {"object": [kind, alg, N, t], "getter": g, "digest": d, "fresh_process_digest": want[g]})
+            elif op[0] == "scramble":
+                res = last.get(op[1])
+                try:
+                    if res is not None and hasattr(res, "data") and hasattr(res, "format"):
+                        res.data *= 3.5
+                    elif isinstance(res, np.ndarray) and res.flags.writeable and res.dtype.kind == "f":
+                        res *= 3.5
+                except Exception:
+                    pass
             elif op[0] == "seed":
                 np.random.seed(op[1])
                 noise_between = True
@@ -297,6 +315,12 @@ def run_histories(spec):
     trace.install()
     rng = random.Random(spec["rseed"])
     hist = [make_history(rng, spec["tier"]) for _ in range(spec["count"])]
+    if spec["rseed"] % 1000 == 0:
+        # every run: a single-position full grid whose matrices are consumed in place by the package's own get_full_prefactors
+        fixed = [["construct", "full", "ico", 1, "cube4D_8|[0.1]"], ["get", 0, "full_prefactors"], ["get", 0, "full_borders"],
+                 ["get", 0, "full_distances"], ["seed", 7], ["get", 0, "full_prefactors"], ["get", 0, "full_adjacency"],
+                 ["construct", "4d", "cube4D", 8, None], ["get", 1, "borders"], ["scramble", 1], ["get", 1, "borders"], ["get", 1, "distances"]]
+        hist.append((fixed, [("full", "ico", 1, "cube4D_8|[0.1]"), ("4d", "cube4D", 8, None)]))
     needed = sorted({(k, a, N, t) for _, objs in hist for (k, a, N, t) in objs}, key=repr)
     golden = golden_for([list(x) for x in needed], spec["rseed"])
     import molgri
